@@ -319,13 +319,25 @@ class Checker:
         p.evals += 1
         try:
             self._attempt(src, full, seconds)
-        except core.CaseTimeout as e:
-            self.hangs += 1
-            if HANGS is not None:
-                with HANGS_LOCK:
-                    HANGS.value += 1
-            self.bad(f"C01/hang/{self.cfg}/{_jinja_frame(e.__traceback__, True)}", src, self._api,
-                     f"no result after {seconds} s of CPU time")
+        except core.CaseTimeout:
+            # On an oversubscribed virtual machine stolen time is charged to the
+            # running process, so even the CPU-time alarm can fire on a stall.  A
+            # genuine hang is deterministic: it must time out again with twice
+            # the allowance before it is reported.
+            n = len(p.viol)
+            try:
+                self._attempt(src, full, 2 * seconds)
+            except core.CaseTimeout as e:
+                del p.viol[n:]
+                self.hangs += 1
+                if HANGS is not None:
+                    with HANGS_LOCK:
+                        HANGS.value += 1
+                self.bad(f"C01/hang/{self.cfg}/{_jinja_frame(e.__traceback__, True)}", src, self._api,
+                         f"no result after {seconds} s and again after {2 * seconds} s of CPU time")
+            else:
+                del p.viol[n:]  # whatever the case violates was recorded by the first attempt
+                p.count("timeouts_not_reproduced")
 
     def _attempt(self, src, full, seconds):
         env = make_env(self.ci)  # fresh environment per case
@@ -803,6 +815,12 @@ def shard_exprs(arg, p):
         p.count("cases_expr_positions", p.evals)
 
 
+def shard_any(job):
+    kind, arg = job
+    return {"long": shard_long, "exprs": shard_exprs, "strings": shard_strings, "corpus": shard_corpus,
+            "shapes": shard_shapes}[kind](arg)
+
+
 # --------------------------------------------------------------------------
 
 
@@ -826,8 +844,9 @@ def run(ctx: core.Ctx):
                 "distinct (outcome class, message with quoted names and numbers masked)")
     ctx.assumptions += [
         "a fresh Environment is built for every case; the lexer object is shared through jinja2's own lexer cache",
-        "hang = no result after 3 s (long-run family: 2 s) of the worker's CPU time (ITIMER_VIRTUAL), so a stalled shared machine is not "
-        "mistaken for a hang; a hang that consumes no CPU (blocking) would not be seen - loading a template from a string does no I/O",
+        "hang = no result after 3 s (long-run family: 2 s) of the worker's CPU time (ITIMER_VIRTUAL) and again after twice that when the "
+        "case is repeated (a stalled or oversubscribed machine must not be mistaken for a hang); a hang that consumes no CPU (blocking) "
+        "would not be seen - loading a template from a string does no I/O",
         "after 3 hangs in a shard or 8 in the run the remaining enumeration is abandoned and the run is reported as not exhaustive",
         "word fragments are joined both with no separator and with one blank between adjacent word-like fragments",
         "delimiter fragments of the alphabets, of the corpus tokens and of the shapes are translated to the configuration's delimiters; "
@@ -842,10 +861,10 @@ def run(ctx: core.Ctx):
     bounds = {"core_alphabet": len(SIGMA1), "keyword_alphabet": len(SIGMA2), "k_default": k_def, "k_other_configs": k_oth,
               "k_keyword_alphabet": k2, "configs": [c[0] for c in CONFIGS],
               "corpus_seeds": len(CORPUS)}
-    # (e) long runs and (f) expression positions first: they are small and a hang-type defect shows here at once
+    # (e) long runs and (f) expression positions
     nparts = 4
-    ctx.pmap(shard_long, [(ci, part, nparts) for ci in range(len(CONFIGS)) for part in range(nparts)])
-    ctx.pmap(shard_exprs, [(ci, part, 2) for ci in range(len(CONFIGS)) for part in range(2)])
+    jobs = [("long", (ci, part, nparts)) for ci in range(len(CONFIGS)) for part in range(nparts)]
+    jobs += [("exprs", (ci, part, 2)) for ci in range(len(CONFIGS)) for part in range(2)]
     bounds["long_run_lengths"] = list(LONG_N)
     bounds["long_run_cases_per_config"] = len(long_cases(0))
     bounds["expr_position_cases_per_config"] = len(expr_cases())
@@ -865,10 +884,7 @@ def run(ctx: core.Ctx):
             shards += string_shards(ci, 2, kf, frame)
             tuples += string_count(len(alphabet(ci, 2)), kf)
     bounds["fragment_tuples"] = tuples
-    ctx.pmap(shard_strings, shards)
-    done = sum(v for k, v in ctx.counters.items() if k.startswith("cases_strings_"))
-    if done < tuples and not ctx.counters.get("shards_cut_short"):
-        raise core.HarnessError(f"fragment strings: {done} cases for {tuples} tuples")
+    jobs += [("strings", s) for s in shards]
 
     # (c) mutations
     n = len(CORPUS)
@@ -886,7 +902,7 @@ def run(ctx: core.Ctx):
     bounds["d1_shortest_seeds"] = {CONFIGS[ci][0]: d1[ci] for ci in d1}
     bounds["d2_shortest_seeds"] = {CONFIGS[ci][0]: d2[ci] for ci in d2}
     bounds["max_seed_tokens_d1_default"] = sum(1 for t in _seed_tok.findall(CORPUS[d1[0] - 1]) if not t.isspace())
-    ctx.pmap(shard_corpus, cshards)
+    jobs += [("corpus", s) for s in cshards]
 
     # (d) shapes
     step = 1500
@@ -896,9 +912,16 @@ def run(ctx: core.Ctx):
         total = len(all_shapes(full))
         sshards += [(ci, full, lo, min(total, lo + step)) for lo in range(0, total, step)]
         bounds.setdefault("shape_cases", {})[CONFIGS[ci][0]] = total
-    ctx.pmap(shard_shapes, sshards)
+    jobs += [("shapes", s) for s in sshards]
+    # one pool for everything: forking a worker costs about a second of page-fault time on this kind of machine
+    ctx.pmap(shard_any, jobs)
+    done = sum(v for k, v in ctx.counters.items() if k.startswith("cases_strings_"))
+    if done < tuples and not ctx.counters.get("shards_cut_short"):
+        raise core.HarnessError(f"fragment strings: {done} cases for {tuples} tuples")
     bounds["identifiers"] = len(IDS)
     ctx.cov["bounds"] = bounds
+    if ctx.counters.get("timeouts_not_reproduced"):
+        ctx.assumptions.append(f"{ctx.counters['timeouts_not_reproduced']} case(s) hit the CPU alarm once and finished normally when repeated (machine stall)")
     if ctx.counters.get("shards_cut_short"):
         ctx.cap_hit(f"{ctx.counters['shards_cut_short']} shard(s) stopped enumerating after {HANGS_PER_SHARD} hangs in the shard "
                     f"or {HANGS_PER_RUN} in the run ({HANGS.value} hangs reported)")
